@@ -246,3 +246,24 @@ brk("c09-unfix-key-read", ["C09"], (SIGNCMD, '        self.key_name = envelope_j
 brk("c09-main-writes-first", ["C09"], (SIGNCMD, '    envelope = load_envelope(kwargs["input_envelope"])\n', '    envelope = load_envelope(kwargs["input_envelope"])\n    save_envelope(kwargs["output_envelope"], envelope)\n'))
 brk("c09-main-swallows", ["C09"], (SIGNCMD, '        envelope = single_level_sign(envelope, **kwargs)\n', '        try:\n            envelope = single_level_sign(envelope, **kwargs)\n        except Exception:\n            pass\n'))
 ben("c09-key-read-guarded", ["C09"], (SIGNCMD, '        self.key_name = envelope_json.get("key-name")', '        self.key_name = envelope_json["key-name"] if "key-name" in envelope_json else None'))
+
+# ------------------------------------------------------------------ C07 boot storage
+brk("c07-offset-shift", ["C07"], (IMG, '            "role": ManifestRole.APP_LOCAL_3,\n            "offset": 8192 + 1024 * 7,', '            "role": ManifestRole.APP_LOCAL_3,\n            "offset": 8192 + 1024 * 8,'))
+brk("c07-overlap", ["C07"], (IMG, '            "role": ManifestRole.RAD_LOCAL_2,\n            "offset": 4096 + 1024 * 3,\n            "size": 1024,', '            "role": ManifestRole.RAD_LOCAL_2,\n            "offset": 4096 + 1024 * 3,\n            "size": 2048,'))
+brk("c07-domain-wrong", ["C07"], (IMG, '            "role": ManifestRole.RAD_RECOVERY,\n            "offset": 8192 + 1024 * 1,\n            "size": 1024,\n            "domain": ManifestDomain.RADIO,', '            "role": ManifestRole.RAD_RECOVERY,\n            "offset": 8192 + 1024 * 1,\n            "size": 1024,\n            "domain": ManifestDomain.APPLICATION,'))
+brk("c07-dup-role-in-layout", ["C07"], (IMG, '            "role": ManifestRole.SEC_SYSCTRL,\n            "offset": 3072,\n            "size": 1024,\n            "domain": ManifestDomain.SECURE,\n        },\n        {\n            "role": ManifestRole.RAD_RECOVERY,\n            "offset": 4096', '            "role": ManifestRole.SEC_SDFW,\n            "offset": 3072,\n            "size": 1024,\n            "domain": ManifestDomain.SECURE,\n        },\n        {\n            "role": ManifestRole.RAD_RECOVERY,\n            "offset": 4096'))
+brk("c07-record-version-key", ["C07"], (IMG, "    ENVELOPE_SLOT_CLASS_ID_OFFSET_KEY = 1\n    ENVELOPE_SLOT_ENVELOPE_BSTR_KEY = 2", "    ENVELOPE_SLOT_CLASS_ID_OFFSET_KEY = 2\n    ENVELOPE_SLOT_ENVELOPE_BSTR_KEY = 1"))
+brk("c07-pad-zero", ["C07"], (IMG, 'envelope_bytes = self._envelopes[role].ljust(max_size, b"\\xff")', 'envelope_bytes = self._envelopes[role].ljust(max_size, b"\\x00")'))
+brk("c07-offset-prefix-15", ["C07"], (IMG, 'class_id_offset = component_id_offset + len(cbor_dumps([cbor_dumps("INSTLD_MFST"), b"#"]))', 'class_id_offset = component_id_offset + len(cbor_dumps([cbor_dumps("INSTLD_MFST"), b""]))'))
+brk("c07-size-check-dropped", ["C07"], (IMG, "        if slot[1] < len(envelope_bytes):\n            raise GeneratorError(\n                f\"Unable to fit manifest with class id {class_id.hex()} ({len(envelope_bytes)} > {slot[1]})\"\n            )\n", ""))
+brk("c07-size-check-off-by-one", ["C07"], (IMG, "        if slot[1] < len(envelope_bytes):", "        if slot[1] + 1 < len(envelope_bytes):"))
+brk("c07-dup-overwrites", ["C07"], (IMG, "        if role in self._envelopes.keys():\n            raise GeneratorError(f\"Manifest with role {role} already added\")\n", ""))
+brk("c07-commit-before-size-check", ["C07"], (IMG, "        if slot[1] < len(envelope_bytes):", "        self._envelopes[role] = envelope_bytes\n        if slot[1] < len(envelope_bytes):"))
+brk("c07-write-inside-add-loop", ["C07"], (IMG, "        for envelope in envelopes:\n            storage.add_envelope(envelope)\n\n        for domain in ManifestDomain:\n            ImageCreator._create_single_domain_storage_file_for_boot(\n                storage,\n                domain,\n                dir_name,\n            )", "        for envelope in envelopes:\n            storage.add_envelope(envelope)\n            for domain in ManifestDomain:\n                ImageCreator._create_single_domain_storage_file_for_boot(\n                    storage,\n                    domain,\n                    dir_name,\n                )"))
+brk("c07-domain-filter-role", ["C07"], (IMG, "            if storage_domain is not None and storage_domain != domain:\n                continue", "            if storage_domain is not None and storage_domain.value != (role.value & 0x30):\n                continue"))
+brk("c07-sever-keeps-text", ["C07"], (TOPENV, '            "suit-text",\n', ''))
+brk("c07-unfix-legacy", ["C07"], (TOPENV, '            "suit-install-legacy",\n', ''))
+brk("c07-classid-from-other-bytes", ["C07"], (IMG, "class_id = severed_envelope[class_id_offset : class_id_offset + 16]", "class_id = manifest_cbor[class_id_offset - component_id_offset + 1 : class_id_offset - component_id_offset + 17]"))
+brk("c07-soc-swapped", ["C07"], (IMG, '        elif soc == "nrf9280":\n            storage = EnvelopeStorageNrf9280(storage_address, kconfig=config_file)', '        elif soc == "nrf9280":\n            storage = EnvelopeStorageNrf54h20(storage_address, kconfig=config_file)'))
+ben("c07-reorder-layout", ["C07"], (IMG, '        {\n            "role": ManifestRole.SEC_SDFW,\n            "offset": 2048,\n            "size": 1024,\n            "domain": ManifestDomain.SECURE,\n        },\n        {\n            "role": ManifestRole.SEC_SYSCTRL,\n            "offset": 3072,\n            "size": 1024,\n            "domain": ManifestDomain.SECURE,\n        },\n        {\n            "role": ManifestRole.RAD_RECOVERY,\n            "offset": 4096 + 1024 * 1,', '        {\n            "role": ManifestRole.SEC_SYSCTRL,\n            "offset": 3072,\n            "size": 1024,\n            "domain": ManifestDomain.SECURE,\n        },\n        {\n            "role": ManifestRole.SEC_SDFW,\n            "offset": 2048,\n            "size": 1024,\n            "domain": ManifestDomain.SECURE,\n        },\n        {\n            "role": ManifestRole.RAD_RECOVERY,\n            "offset": 4096 + 1024 * 1,'))
+ben("c07-size-check-flipped", ["C07"], (IMG, "        if slot[1] < len(envelope_bytes):", "        if len(envelope_bytes) > slot[1]:"))
